@@ -18,6 +18,7 @@ import (
 	"github.com/yuin/goldmark/parser"
 	"github.com/yuin/goldmark/renderer"
 	"github.com/yuin/goldmark/renderer/html"
+	"github.com/yuin/goldmark/util"
 )
 
 const repoRoot = "/repo"
@@ -87,6 +88,13 @@ func extensionsOf(name string) []goldmark.Extender {
 			extension.Strikethrough, extension.TaskList, extension.DefinitionList, extension.Footnote, extension.Typographer}
 	case "gfmattr": // GFM members with table alignment pinned to the attribute method (C10)
 		return []goldmark.Extender{extension.Linkify, extension.NewTable(extension.WithTableCellAlignMethod(extension.TableCellAlignAttribute)), extension.Strikethrough, extension.TaskList}
+	case "footnote-pt": // footnote parsers without the AST transformer (ground truth for C16)
+		return []goldmark.Extender{fnParsersOnly{}}
+	case "nocjk-pt":
+		return []goldmark.Extender{extension.GFM, extension.DefinitionList, fnParsersOnly{}, extension.Typographer}
+	case "all-pt":
+		return []goldmark.Extender{extension.GFM, extension.DefinitionList, fnParsersOnly{}, extension.Typographer,
+			extension.NewCJK(extension.WithEastAsianLineBreaks(), extension.WithEscapedSpace())}
 	case "nocjk": // everything except CJK
 		return []goldmark.Extender{extension.GFM, extension.DefinitionList, extension.Footnote, extension.Typographer}
 	}
@@ -134,6 +142,18 @@ func safeConfigs() []mdConfig {
 		}
 	}
 	return out
+}
+
+// fnParsersOnly registers the footnote block and inline parsers (same priorities as the
+// extension) but neither its AST transformer nor its renderer: the parsed tree keeps every
+// definition and every reference.
+type fnParsersOnly struct{}
+
+func (fnParsersOnly) Extend(m goldmark.Markdown) {
+	m.Parser().AddOptions(
+		parser.WithBlockParsers(util.Prioritized(extension.NewFootnoteBlockParser(), 999)),
+		parser.WithInlineParsers(util.Prioritized(extension.NewFootnoteParser(), 101)),
+	)
 }
 
 // convert runs Convert with panic capture.
